@@ -346,8 +346,18 @@ def c08_object_decoder(rep, crate, cfg):
             for e in stores:
                 m = match(("deref", ("call", V("im"), (("ref", fld(i_blocks)), V("ix")))), N(e["args"][0]))
                 dnf = conds_of(ls, e["block"])
-                guard = N(("call", "std::option::Option::<T>::is_none", (("call", "std::ops::Index::index", (("ref", fld(i_blocks)), BN)),)))
-                okg = must(dnf, guard, True) and N(m["ix"]) == BN
+                # "blocks[bn] is None" in any spelling (is_none(), match None, if let): canonical Option atoms over blocks[bn]
+                from .. import seqs
+
+                def slot(x):
+                    x = seqs._N(x)
+                    while x[0] in ("ref", "deref", "deref*"):
+                        x = x[1]
+                    return x
+                SLOT = ("index", fld(i_blocks), BN)
+                od = [frozenset(((("is-some", slot(c[1])), v) if c[0] == "is-some" else (c, v)) for c, v in cj) for cj in opt_dnf(dnf)]
+                okg = must(od, ("is-some", SLOT), False) and N(m["ix"]) == BN
+                dnf = od
                 rep.check(okg, R3, f.key, "memo-guard", where,
                           "%s stores into blocks[bn] only while blocks[bn] is None, bn = the packet's own source block number" % nm,
                           {"conds": [[(fmt(c)[:90], v) for c, v in cj] for cj in dnf], "index": fmt(m["ix"])[:80]}, cfg)
@@ -355,6 +365,12 @@ def c08_object_decoder(rep, crate, cfg):
                 want = ("call", V("d", lambda x: isinstance(x, str) and x.endswith("SourceBlockDecoder::decode")),
                         (("call", V("im2"), (("ref", fld(i_decs)), BN)), V("it")))
                 mv = match(want, val)
+                if mv is None:
+                    # the block decoder reached through a named &mut local
+                    want2 = ("call", V("d", lambda x: isinstance(x, str) and x.endswith("SourceBlockDecoder::decode")), (V("recv"), V("it")))
+                    mv2 = match(want2, val)
+                    if mv2 is not None and slot(mv2["recv"]) == ("index", fld(i_decs), BN):
+                        mv = mv2
                 okv = mv is not None and terms.find(P(2), mv["it"]) is not None
                 rep.check(okv, R3, f.key, "memo-value", where, "%s: the stored value is block_decoders[bn].decode(this packet)" % nm,
                           {"value": fmt(val)[:160]}, cfg)
